@@ -559,7 +559,7 @@ func runH3Stream(w *bufio.Writer, seed uint64, n int, _ []string) {
 			}
 			pos := r.Intn(len(frames) + 1)
 			frames = append(frames[:pos:pos], append([]h3sf{{kind: 3, raw: raw}}, frames[pos:]...)...)
-		case c == 22 || c == 23:
+		case c == 22 || c == 23 || c == 28:
 			scen = "truncated"
 		case c == 24 || c == 25:
 			scen = "stream-error"
@@ -579,7 +579,9 @@ func runH3Stream(w *bufio.Writer, seed uint64, n int, _ []string) {
 			scen = "random-bytes"
 		}
 		var data []byte
+		bounds := map[int]bool{0: true} // frame boundaries
 		for _, f := range frames {
+			bounds[len(data)] = true
 			switch f.kind {
 			case 0:
 				data = h3vi(r, data, 0)
@@ -597,11 +599,13 @@ func runH3Stream(w *bufio.Writer, seed uint64, n int, _ []string) {
 				data = append(data, f.raw...)
 			}
 		}
+		cutAtBoundary := false
 		if scen == "truncated" {
 			if len(data) == 0 {
 				scen = "wellformed"
 			} else {
 				data = data[:r.Intn(len(data))]
+				cutAtBoundary = bounds[len(data)]
 			}
 		}
 		if scen == "random-bytes" {
@@ -787,6 +791,21 @@ func runH3Stream(w *bufio.Writer, seed uint64, n int, _ []string) {
 		}
 		if wellformed && clScen == "cl-under" && finished && noContent && (firstErrCls != http3.VerifH3SErrEOF || !bytes.Equal(got, total) || len(script.Cancels) != 0) {
 			fmt.Fprintf(w, "MONFAIL\th3stream/no-content-exempt\tresponse to HEAD / 304 with a Content-Length and fewer bytes: ended with error class %d, cancels=%v (want clean EOF)\t%s\n", firstErrCls, script.Cancels, detail())
+		}
+		if scen == "truncated" && fc == 1 && finished && (clScen == "stream" || clScen == "body-nocl") {
+			// A valid frame sequence cut short by FIN: a prefix of the payloads, then an ERROR and
+			// H3_FRAME_ERROR on the connection -- a clean EOF only if the cut is at a frame boundary.
+			cc, ok := rig.ConnClosed()
+			switch {
+			case !bytes.HasPrefix(total, got):
+				fmt.Fprintf(w, "MONFAIL\th3stream/truncation\tbytes read from a truncated stream are not a prefix of the DATA payloads\t%s\n", detail())
+			case !cutAtBoundary && firstErrCls == http3.VerifH3SErrEOF:
+				fmt.Fprintf(w, "MONFAIL\th3/truncated-frame-clean-eof\ta frame cut short by the end of the stream ends the body with a clean io.EOF after %d bytes (silently truncated; RFC 9114 7.1 demands H3_FRAME_ERROR)\t%s\n", len(got), detail())
+			case !cutAtBoundary && (firstErrCls != http3.VerifH3SErrUnexpectedEOF || !ok || cc != 0x106):
+				fmt.Fprintf(w, "MONFAIL\th3stream/truncation\ttruncated frame: error class %d, connection closed=%v code=%#x (want io.ErrUnexpectedEOF and H3_FRAME_ERROR)\t%s\n", firstErrCls, ok, cc, detail())
+			case cutAtBoundary && (firstErrCls != http3.VerifH3SErrEOF || ok):
+				fmt.Fprintf(w, "MONFAIL\th3stream/truncation\tstream ending at a frame boundary: error class %d, connection closed=%v (want clean EOF)\t%s\n", firstErrCls, ok, detail())
+			}
 		}
 		if scen == "reserved" && finished && clScen != "cl-over" && clScen != "cl-exact" {
 			cc, ok := rig.ConnClosed()
